@@ -44,10 +44,11 @@ Proof.
   induction l as [|x r IH]; [reflexivity|]. cbn [existsb]. rewrite IH.
   destruct (f x), c, (existsb f r); reflexivity.
 Qed.
-Lemma Known_C08_child_classes : forall v capture last st,
+Lemma Known_C08_child_classes : forall v capture last st, v_capfirst v = false ->
   Known_C08_child v capture last st = known_dupleak v last capture st || known_capredir v last capture st.
 Proof.
-  intros. unfold Known_C08_child, clean, known_dupleak, known_capredir, dirty.
+  intros v capture last st VC. unfold Known_C08_child, clean, known_dupleak, known_capredir, dirty.
+  rewrite VC. cbn [negb]. rewrite !andb_true_r.
   rewrite has12_file.
   rewrite (existsb_split _ (fun r => is_dup21 r && negb (negb last)) is_dup12 (negb capture) (negb last || negb capture)).
   rewrite (existsb_andc _ is_dup21 (negb (negb last))).
@@ -57,7 +58,15 @@ Qed.
 
 Lemma Known_C08_child_v0 : forall capture last st, Known_C08_child v0 capture last st = false.
 Proof.
-  intros. unfold Known_C08_child, clean, dirty, v0. cbn [v_dupclose v_capclose negb andb].
+  intros. unfold Known_C08_child, clean, dirty, v0. cbn [v_dupclose v_capclose v_capfirst negb andb].
+  rewrite !andb_false_r. reflexivity.
+Qed.
+
+(* the proposed notes/C04-fix-4.patch keeps the child class empty (C08_children_variants applies) *)
+Lemma Known_C08_child_fix4 : forall capture last st,
+  Known_C08_child (mkv true true true true true true true) capture last st = false.
+Proof.
+  intros. unfold Known_C08_child, clean, dirty. cbn [v_dupclose v_capclose v_capfirst negb andb].
   rewrite !andb_false_r. reflexivity.
 Qed.
 
